@@ -314,3 +314,149 @@ def _first_build(d):
 
 
 CONTRACTS["ufo2ft.featureWriters.cursFeatureWriter:CursFeatureWriter._firstAnchorNamed"].runtime = Runtime(curs_cases, _first_build, call=lambda fn, a: fn(a["glyph"], a["anchorName"]))
+
+
+# ---- _makeCursiveStatements ---------------------------------------------------------------------------------------------------------------
+# One record per glyph (in glyph order) that has at least one of the two anchors; the record's glyph is a GlyphName of that glyph's name and its
+# two sides are exactly the nodes `_getAnchors` returned for it (NULL on the missing side).  What those nodes are is `_getAnchors`' own
+# contract (called here through it); the clauses below restate its postcondition for the glyph of every record.
+MCS = "ufo2ft.featureWriters.cursFeatureWriter:CursFeatureWriter._makeCursiveStatements"
+VAL2 = Tuple(Opt(Ref(NODE)), Opt(Ref(NODE)))
+MCS_LOCALS = {"cursiveAnchors": Dict(Ref(NODE), VAL2), "statements": List(Ref(NODE)), "src": List(INT), "K0": List(Ref(NODE)), "c0": Dict(Ref(NODE), VAL2)}
+MCS_LOOP1 = "for glyph in glyphs"
+MCS_LOOP2 = "for (glyphName, anchors) in cursiveAnchors.items()"
+MCS_PUT = "cursiveAnchors[ast.GlyphName(glyph.name)] = (entryAnchor, exitAnchor)"
+MCS_GET = "entryAnchor, exitAnchor = self._getAnchors(glyph.name, entryName, exitName, glyph=glyph)"
+CLASSES[NODE].fields.setdefault("glyphclass", Ref(NODE))
+CLASSES[NODE].fields.setdefault("entryAnchor", Opt(Ref(NODE)))
+CLASSES[NODE].fields.setdefault("exitAnchor", Opt(Ref(NODE)))
+_KS = "list(cursiveAnchors)"
+
+
+def _has_own(g, nm):
+    return f"any({g}.anchors[b].name == {nm}Name for b in range(len({g}.anchors)))"
+
+
+def _font_has(g, nm):
+    FA = f"{_FG}[{g}.name].anchors"
+    return f"({g}.name in {_FG} and any({FA}[b].name == {nm}Name for b in range(len({FA}))))"
+
+
+def _present(g, nm):
+    """`_getAnchors(g.name, .., glyph=g)` returns a node on this side: the exported glyph has an anchor of the name, or (fall-back) the font's glyph has"""
+    return f"({_has_own(g, nm)} or {_font_has(g, nm)})"
+
+
+def _coords(node, g, nm):
+    """the node's coordinates: the exported glyph's own first anchor of the name, else (fall-back) an anchor of the name of the font's glyph — rounded"""
+    GA, FA = f"{g}.anchors", f"{_FG}[{g}.name].anchors"
+    return (f"({node}.kind == 'Anchor' and ite({_has_own(g, nm)},"
+            f" any({GA}[f].name == {nm}Name and all({GA}[b].name != {nm}Name for b in range(f)) and {node}.x == c18_round({GA}[f].x) and {node}.y == c18_round({GA}[f].y) for f in range(len({GA}))),"
+            f" any({FA}[b].name == {nm}Name and {node}.x == c18_round({FA}[b].x) and {node}.y == c18_round({FA}[b].y) for b in range(len({FA})))))")
+
+
+def _rec(stmt, g):
+    """statement `stmt` is the cursive record of glyph g"""
+    return (f"({stmt}.kind == 'CursivePosStatement' and {stmt}.glyphclass.kind == 'GlyphName' and {stmt}.glyphclass.glyph == {g}.name"
+            f" and iff({stmt}.entryAnchor is None, not {_present(g, 'entry')}) and iff({stmt}.exitAnchor is None, not {_present(g, 'exit')})"
+            f" and implies({stmt}.entryAnchor is not None, {_coords(stmt + '.entryAnchor', g, 'entry')})"
+            f" and implies({stmt}.exitAnchor is not None, {_coords(stmt + '.exitAnchor', g, 'exit')}))")
+
+
+def _entry(k, v, g):
+    """dict entry (key node k, value pair v) is the pending record of glyph g"""
+    return (f"({k}.kind == 'GlyphName' and {k}.glyph == {g}.name"
+            f" and iff({v}[0] is None, not {_present(g, 'entry')}) and iff({v}[1] is None, not {_present(g, 'exit')})"
+            f" and implies({v}[0] is not None, {_coords(v + '[0]', g, 'entry')})"
+            f" and implies({v}[1] is not None, {_coords(v + '[1]', g, 'exit')}))")
+
+
+_ORDER = "all(all(implies(p1 < p2, src[p1] < src[p2]) for p2 in range(len(src))) for p1 in range(len(src)))"
+_V = f"cursiveAnchors[{_KS}[p]]"
+MCS_REGISTERED = False  # WORK IN PROGRESS (notes/C18.requests.md 13): not part of the registered check until the allocation fact is available
+MCS_COMMON = dict(
+    props=["C18"] if MCS_REGISTERED else [],
+    params={"self": Ref("c18_CW"), "glyphs": List(Ref("c18_UGlyph")), "entryName": STR, "exitName": STR},
+    returns=List(Ref(NODE)),
+    globals={"ast": M.fea_shim(), "isinstance": M.ISINSTANCE},
+    requires=["not self.context.isVariable"],
+    merge_branches=False,
+    # (new nodes only; declared as the fields they are stored in because the loop havoc is per field)
+    modifies=["c17_Node.kind", "c17_Node.glyph", "c17_Node.glyphclass", "c17_Node.entryAnchor", "c17_Node.exitAnchor"],
+    locals=MCS_LOCALS,
+    # src[k]: the position (in `glyphs`) of the glyph of record k; K0 / c0: the dict's key list / the dict at the start of this iteration — ghosts
+    ghost_vars={"src": (List(INT), "[]"), "K0": (List(Ref(NODE)), "[]"), "c0": (Dict(Ref(NODE), VAL2), "{}")},
+    ghost={MCS_PUT: ["src = src + [i]"], MCS_GET: ["K0 = list(cursiveAnchors) + []", "c0 = {**cursiveAnchors}"]},
+    hints={MCS_PUT: [
+        # the one new entry sits at the end; the earlier entries are untouched
+        f"len({_KS}) == len(K0) + 1 and cursiveAnchors[{_KS}[len(K0)]][0] == entryAnchor and cursiveAnchors[{_KS}[len(K0)]][1] == exitAnchor",
+        f"{_KS}[len(K0)].kind == 'GlyphName' and {_KS}[len(K0)].glyph == glyph.name and allocated({_KS}[len(K0)])",
+        f"all({_KS}[p] == K0[p] and cursiveAnchors[K0[p]] == c0[K0[p]] for p in range(len(K0)))",
+    ]},
+)
+# shared by the variants: one dict entry per recorded glyph, keyed by a GlyphName node of ITS name (the keys are distinct objects)
+_INV1 = {
+    "len": f"len(src) == len(cursiveAnchors) and len(cursiveAnchors) == len({_KS})",
+    "order": _ORDER + " and all(0 <= src[p] and src[p] < i for p in range(len(src)))",
+    "keys": f"all(allocated({_KS}[p]) and {_KS}[p].kind == 'GlyphName' and {_KS}[p].glyph == glyphs[src[p]].name for p in range(len({_KS})))",
+}
+_INV2 = {
+    "len": "len(statements) == t",
+    "shape": "all(statements[u].kind == 'CursivePosStatement' and statements[u].glyphclass == KK[u] and statements[u].entryAnchor == cursiveAnchors[KK[u]][0]"
+    " and statements[u].exitAnchor == cursiveAnchors[KK[u]][1] for u in range(t))",
+}
+_SHAPE = "all(result[k].kind == 'CursivePosStatement' and result[k].glyphclass.kind == 'GlyphName' and result[k].glyphclass.glyph == glyphs[src[k]].name for k in range(len(result)))"
+
+
+def _null_iff(node_e, node_x, g):
+    return f"(iff({node_e} is None, not {_present(g, 'entry')}) and iff({node_x} is None, not {_present(g, 'exit')}) and ({node_e} is not None or {node_x} is not None))"
+
+
+contract(
+    MCS,
+    name="records",
+    **MCS_COMMON,
+    ensures={
+        "records-in-glyph-order": "len(src) == len(result) and " + _ORDER + " and all(0 <= src[k] and src[k] < len(glyphs) for k in range(len(result)))",
+        "record-of-its-glyph": _SHAPE,
+        # a side is NULL iff the glyph has no anchor of that name (own, or by fall-back the font's); a record has at least one side
+        "null-sides": "all(" + _null_iff("result[k].entryAnchor", "result[k].exitAnchor", "glyphs[src[k]]") + " for k in range(len(result)))",
+        "every-glyph-with-an-anchor": "all(implies(" + _present("glyphs[a]", "entry") + " or " + _present("glyphs[a]", "exit") + ", any(src[k] == a for k in range(len(src)))) for a in range(len(glyphs)))",
+    },
+    canaries={"never-empty": "len(result) > 0", "entry-always": "all(result[k].entryAnchor is not None for k in range(len(result)))"},
+    loops={
+        MCS_LOOP1: Loop(index="i", invariants={
+            **_INV1,
+            "null-sides": "all(" + _null_iff(_V + "[0]", _V + "[1]", "glyphs[src[p]]") + f" for p in range(len({_KS})))",
+            "complete": "all(implies(" + _present("glyphs[a]", "entry") + " or " + _present("glyphs[a]", "exit") + ", any(src[p] == a for p in range(len(src)))) for a in range(i))",
+        }),
+        MCS_LOOP2: Loop(index="t", seq="KK", invariants=_INV2),
+    },
+)
+
+for _k, _nm in ((0, "entry"), (1, "exit")):
+    contract(
+        MCS,
+        name=_nm,
+        **{k: v for k, v in MCS_COMMON.items() if k != "hints"},
+        ensures={
+            "record-of-its-glyph": "len(src) == len(result) and all(0 <= src[k] and src[k] < len(glyphs) for k in range(len(result))) and " + _SHAPE,
+            f"{_nm}-anchor-at-rounded-coordinates": f"all(implies(result[k].{_nm}Anchor is not None, " + _coords(f"result[k].{_nm}Anchor", "glyphs[src[k]]", _nm) + ") for k in range(len(result)))",
+        },
+        canaries={"never-empty": "len(result) > 0"},
+        hints={MCS_PUT: MCS_COMMON["hints"][MCS_PUT] + [
+            # the side of the new entry, and the sides of the earlier entries (their nodes are older than the GlyphName node just created)
+            f"implies({_nm}Anchor is not None, {_nm}Anchor.kind == 'Anchor')",
+            f"implies({_nm}Anchor is not None and " + _has_own("glyph", _nm) + f", any(glyph.anchors[f].name == {_nm}Name and all(glyph.anchors[b].name != {_nm}Name for b in range(f)) and {_nm}Anchor.x == c18_round(glyph.anchors[f].x) and {_nm}Anchor.y == c18_round(glyph.anchors[f].y) for f in range(len(glyph.anchors))))",
+            f"implies({_nm}Anchor is not None and not " + _has_own("glyph", _nm) + f", any({_FG}[glyph.name].anchors[b].name == {_nm}Name and {_nm}Anchor.x == c18_round({_FG}[glyph.name].anchors[b].x) and {_nm}Anchor.y == c18_round({_FG}[glyph.name].anchors[b].y) for b in range(len({_FG}[glyph.name].anchors))))",
+            f"implies({_nm}Anchor is not None, " + _coords(f"{_nm}Anchor", "glyph", _nm) + ")",
+            f"all(implies(c0[K0[p]][{_k}] is not None, " + _coords(f"c0[K0[p]][{_k}]", "glyphs[src[p]]", _nm) + ") for p in range(len(K0)))",
+        ]},
+        loops={
+            MCS_LOOP1: Loop(index="i", invariants={
+                **_INV1,
+                "coords": f"all(implies({_V}[{_k}] is not None, " + _coords(f"{_V}[{_k}]", "glyphs[src[p]]", _nm) + f") for p in range(len({_KS})))",
+            }),
+            MCS_LOOP2: Loop(index="t", seq="KK", invariants=_INV2),
+        },
+    )
